@@ -686,7 +686,11 @@ func (rdb *RDB) get(key []byte, ctx *Context) (data []byte, err error) {
 	cachedEntry, ok := ctx.cache[string(key)]
 
 	if ok {
-		data = cachedEntry.data
+		// an entry stored by a closest-key search under the searched key holds
+		// the neighbour's key and data: it means this exact key does not exist
+		if bytes.Equal(cachedEntry.key, key) {
+			data = cachedEntry.data
+		}
 	} else {
 		data, err = rdb.db.Get(rdb.readOptions, key)
 		if err != nil {
